@@ -18,7 +18,7 @@ func init() {
 	register(&Check{
 		ID: "C08", Level: "exploration", Primary: "cells", EvalCount: "connections_checked",
 		Rule: "matrix: connection endings {client FIN, client RST, Unbind, malformed frame, unsupported operation, mid-frame disconnect, read-timeout expiry, recovered panic in an inline (unbind-route) handler, " +
-			"recovered panic in a request-goroutine handler followed by FIN, server Stop} x in-flight states {no handler, k handlers parked on a harness gate, handlers writing large responses, slow requests sent in the same write as the ending (dispatched just before the connection ends)} x transports {plain, TLS listener, " +
+			"recovered panic in a request-goroutine handler followed by FIN, server Stop} x in-flight states {no handler, k handlers parked on a harness gate, handlers writing large responses, slow requests sent in the same write as the ending (dispatched just before the connection ends), the inline StartTLS handler blocked in a handshake the client never completes (plain transport; endings FIN, RST, read timeout, Stop)} x transports {plain, TLS listener, " +
 			"StartTLS-upgraded}; every connection first makes one verified round trip (this maps the client socket to its ConnectionID). For endings where the client stays connected the gate is opened only after the " +
 			"client has watched its socket for a grace period: an EOF seen before the release is a certain violation. Offline oracle over the event log per connection ID: exactly one OnClose, stamped after " +
 			"the exit of every handler of that connection; at quiescence no goroutine with a gldap frame and no socket descriptor remain. distinct_nontrivial = distinct (ending, in-flight, transport) cells exercised",
@@ -26,7 +26,7 @@ func init() {
 		Phases: func(tier string, seed int64) []Phase {
 			return []Phase{{Name: "matrix", Run: c08Run}}
 		},
-		MinObserved: []string{"connections_checked", "onclose_events", "handler_exits_recorded", "eof_withheld_until_release_observed", "just_dispatched_endings_checked"},
+		MinObserved: []string{"connections_checked", "onclose_events", "handler_exits_recorded", "eof_withheld_until_release_observed", "just_dispatched_endings_checked", "endings_with_a_starttls_handshake_pending"},
 	})
 }
 
@@ -207,6 +207,19 @@ func c08OneCell(c *Ctx, wd *c08World, srv *Srv, cell c08Cell, stopper func()) {
 		for i := 0; i < k; i++ {
 			cl.Send(c08Search(int64(10+i), tag+";write"))
 		}
+	case "handshake-pending":
+		// the inline StartTLS handler is blocked in the TLS handshake: the client took the success response and then
+		// sends nothing (or only the first bytes of a ClientHello)
+		cl.Send(sber.Message(20, sber.ExtendedRequest([]byte(sber.OIDStartTLS), nil, false), nil).Encode())
+		if m, err := cl.ReadMsg(patience); err != nil || m.ID != 20 {
+			c.Inconclusive(fmt.Sprintf("%v: no StartTLS response: %v", cell, err))
+			return
+		}
+		if c08TagCtr.Load()%2 == 0 {
+			cl.Send([]byte{0x16, 0x03, 0x01, 0x02, 0x00, 0x01, 0x00})
+		}
+		time.Sleep(2 * time.Millisecond) // the handler is inside Handshake (or about to be: both are states to end in)
+		c.Count("endings_with_a_starttls_handshake_pending", 1)
 	}
 	// just-dispatched: slow requests and the ending leave in ONE write (same segment); the connection ends
 	// while the request goroutines may not even have started
@@ -403,6 +416,9 @@ func c08RunWith(c *Ctx, writeEntries int) {
 				cells = append(cells, c08Cell{e, f, t})
 			}
 		}
+	}
+	for _, e := range []string{"fin", "rst", "readtimeout", "stop"} {
+		cells = append(cells, c08Cell{e, "handshake-pending", "plain"})
 	}
 	reps := c.N(1, 50)
 	var servers []*Srv
